@@ -128,7 +128,7 @@ def cancelling(draw, n):
 
 
 @st.composite
-def mixed_circuit(draw, min_q=1, max_q=5, max_segments=4, nonclassical=NONCLASSICAL_1 + NONCLASSICAL_2, shapes=True, run_max=8):
+def mixed_circuit(draw, min_q=1, max_q=5, max_segments=4, nonclassical=NONCLASSICAL_1 + NONCLASSICAL_2, shapes=True, run_max=8, identity=False):
     """Classical runs interleaved with non-classical gates and barriers."""
     n = draw(st.integers(min_q, max_q))
     out = []
@@ -154,6 +154,9 @@ def mixed_circuit(draw, min_q=1, max_q=5, max_segments=4, nonclassical=NONCLASSI
         # separator
         if s < nseg - 1 and draw(st.integers(0, 3)) > 0:
             out.extend(draw(st.lists(gate(n, list(nonclassical) + ["BARRIER"]), min_size=1, max_size=2)))
+    if identity and out and draw(st.integers(0, 9)) < 3:
+        for _ in range(draw(st.integers(1, 2))):
+            out.insert(draw(st.integers(0, len(out))), ["I", [draw(st.integers(0, n - 1))], None])
     return {"n": n, "gates": out}
 
 
